@@ -626,9 +626,9 @@ func (g *c14IGen) genPackage(name string, main bool, nfiles int, inits []int, sh
 		g.f("\treturn r")
 		g.f("}")
 	})
-	// Known finding F157: only the LAST init() of a package is searched for the functions and variables it uses; what
-	// an earlier init() alone refers to is dropped (a function: the program is rejected; a variable: its initialiser is
-	// not run). Keep() — exported, hence a root of that search — mentions everything the bodies may use.
+	// F157 (repaired in /repo, 2dc2a57): only the LAST init() of a package was searched for the functions and variables it
+	// uses; what an earlier init() alone refers to was dropped. With C14_DENY=initusage every package gets an exported
+	// Keep() — a root of that search — mentioning everything the bodies may use, which hides the defect.
 	if !c14Allow("initusage") {
 		add(r.intn(nfiles), false, func() {
 			g.f("func Keep() int {")
